@@ -96,7 +96,7 @@ def make_case(rnd, idx, layout, scen, long_spans=False):
     if scen == "rollovers-past-131":
         # the 2012 file ends on 8 January (JTAG 8): a roll-over every 8 days, annual output on 5 January = reached in every "year";
         # g.AUS/SIC/AUFNA have 131 slots (run.go:717, repaired as F31): more than 200 roll-overs must not end the process
-        start, end, ann = D(2011, 12, 31), D(2016, rnd.randrange(6, 13), rnd.randrange(1, 28)), D(2016, 1, 5)
+        start, end, ann = D(2011, 12, 31), D(2018, rnd.randrange(6, 13), rnd.randrange(1, 28)), D(2018, 1, 5)
     if scen == "annual-31dec-covered":
         # annual output on 31 December: ENDE is moved to 1 January of the year after the end year, the series covers that day
         if rnd.random() < 0.3:
